@@ -1,6 +1,8 @@
 (* CorrC07.v — correspondence harness for C07: a case carries the adds of one view (type, begin, end,
    label), the iteration set of type names, the query span and the labels the implementation returned
-   for select_covered and select_covering (sorted by label).  check_case evaluates the model. *)
+   for select_covered and select_covering (sorted by label).  check_case evaluates the model.
+   Type names are arbitrary strings (full names; equal short names are distinct types).  For a CAS that was read by
+   a loader the adds are the members of the queried view with their in-memory offsets, in xmi:id order. *)
 From Cassis Require Import Base Index.
 Open Scope Z_scope.
 
